@@ -1,8 +1,17 @@
 import Logrange.Proofs.LqlEngineMisc
+import Logrange.Proofs.LqlEngineSelect
+import Logrange.Proofs.LqlEngineTrunc
+/-!
+# C12: engine = direct parser for EVERY statement kind (root `Lql`)
+
+`engine_direct_lql`: `runEngine` on the regenerated grammar followed by `toLqlChecked` (typed captures + post-check) equals
+`directLql`, from the per-kind theorems `engine_direct_select` (LqlEngineSelect), `engine_direct_truncate`, `engine_direct_show`
+(LqlEngineTrunc), `engine_direct_describe`, `engine_direct_create` (LqlEngineMisc), `engine_direct_delete` (LqlEngineStmt).
+-/
 namespace Logrange.Lql
 open Logrange.Generated.C12
 
-theorem kwAlt_none (c : Ctx) (kw : Bytes) (fl S : String) (f cur : Nat) (hn : c.toks[cur]? = none) :
+theorem kwAlt_noTok (c : Ctx) (kw : Bytes) (fl S : String) (f cur : Nat) (hn : c.toks[cur]? = none) :
     parse c (f+3) (kwAlt kw fl S) cur = .noMatch := by
   simp only [kwAlt, parse_seq, parseSeq_cons, parse_lit, peek, hn, if_true]
 
@@ -11,8 +20,8 @@ theorem run_lql_nil : runEngine grammar "Lql" [] = none := by
   have hn : (⟨[], grammar⟩ : Ctx).toks[0]? = none := rfl
   rw [show 60 * ([] : List Tok).length + 200 = 169 + 31 from rfl, parse_strct _ _ "Lql" lqlBody 0 rfl]
   simp only [lqlBody, parse_once, parse_disj, parseDisj_cons, parseDisj_nil]
-  rw [kwAlt_none _ _ _ _ 193 0 hn, kwAlt_none _ _ _ _ 192 0 hn, kwAlt_none _ _ _ _ 191 0 hn, kwAlt_none _ _ _ _ 190 0 hn,
-    kwAlt_none _ _ _ _ 189 0 hn, kwAlt_none _ _ _ _ 188 0 hn]
+  rw [kwAlt_noTok _ _ _ _ 193 0 hn, kwAlt_noTok _ _ _ _ 192 0 hn, kwAlt_noTok _ _ _ _ 191 0 hn, kwAlt_noTok _ _ _ _ 190 0 hn,
+    kwAlt_noTok _ _ _ _ 189 0 hn, kwAlt_noTok _ _ _ _ 188 0 hn]
   rfl
 
 theorem run_lql_nokw (t : Tok) (r : List Tok)
@@ -29,7 +38,7 @@ theorem run_lql_nokw (t : Tok) (r : List Tok)
     parseDisj_nil]
   rfl
 
-theorem kw_excl (t : Tok) (a b : Bytes) (hab : (a == b) = false) (hf : eqFold a b = false) (h : litMatch t a = true) :
+theorem kw_excl_all (t : Tok) (a b : Bytes) (hab : (a == b) = false) (hf : eqFold a b = false) (h : litMatch t a = true) :
     litMatch t b = false := litMatch_excl t a b hab hf h
 
 
@@ -81,5 +90,18 @@ theorem engine_direct_lql_misc (dp : Bytes → Option Int) (toks : List Tok) (hH
   · intro t r e h; subst e; have := (hk t (by simp)).1; rw [h] at this; cases this
   · intro t r e _ _ h; subst e; have := (hk t (by simp)).2.1; rw [h] at this; cases this
   · intro t r e _ _ _ h; subst e; have := (hk t (by simp)).2.2; rw [h] at this; cases this
+
+
+/-- **engine = direct parser, root `Lql`, every statement kind.** Hypotheses: `OperandNotParen toks` (true of every lexed token
+list) and `hdp`: the date parser rejects the eleven texts `(`, `<`, `>`, `>=`, `<=`, `!=`, `=`, `CONTAINS`, `PREFIX`, `SUFFIX`,
+`LIKE` (needed for `TRUNCATE BEFORE "<one of these>" …` only — see `cex_truncate_dp`: there the engine's unguarded source attempt
+reads `BEFORE ( …` as a function call and fails hard, while the direct parser goes on with the clauses). -/
+theorem engine_direct_lql (dp : Bytes → Option Int) (hdp : ∀ b ∈ LP :: condOps, dp b = none) (toks : List Tok)
+    (hH : OperandNotParen toks) :
+    (runEngine grammar "Lql" toks).bind (toLqlChecked dp (8 * toks.length + 50)) = directLql dp toks := by
+  refine engine_direct_lql_of dp toks hH ?_ ?_ ?_
+  · intro t r e h; subst e; exact engine_direct_select dp _ t r hH (Nat.le_refl _) h
+  · intro t r e h1 h2 h3; subst e; exact engine_direct_truncate dp hdp _ t r hH (Nat.le_refl _) h1 h2 h3
+  · intro t r e h1 h2 h3 h4; subst e; exact engine_direct_show dp _ t r hH (Nat.le_refl _) h1 h2 h3 h4
 
 end Logrange.Lql
